@@ -22,6 +22,11 @@ CHECKS = {
          "Trusts the harness wire client/parser and the reference model; each command is issued right after SELECT so the issuing view equals the authoritative content; order inside one multi-message COPY/MOVE batch is compared as a set.",
          "DESIGN.md §4 C03"),
 
+ "C05": ("exploration",
+         "online trace monitor over the wire: command in flight vs untagged EXPUNGE, pending-removal bookkeeping via fresh authoritative views and the quiescence barrier, [EXPUNGEISSUED] check, duplicate-identity check in the mirror; random histories plus a removal x re-add x next-command x command-after table",
+         "An observer keeps a mailbox selected while others (sessions, connector) remove messages and put them back. The monitor checks on every response: no EXPUNGE while FETCH/STORE/SEARCH (UID forms, failing ones too) is in flight; after a removal is committed and applied to the observer (barrier), the first OK command that permits expunges (NOOP, CHECK, EXPUNGE, MOVE, STATUS of the selected mailbox, APPEND to it, IDLE) announces it; the mirror never holds one message twice (re-add announced before removal); an OK FETCH/STORE/SEARCH that held removals back carries [EXPUNGEISSUED]. The table covers 4 removal kinds x 4 re-add kinds x 11-17 next commands x 2 follow-ups.",
+         "Trusts the quiescence hook, the mirror and fresh EXAMINE views as the authoritative content.",
+         "DESIGN.md §4 C05"),
  "C08": ("exploration",
          "reference-model monitor: every db.Transaction/db.ReadOnly method called directly on the SQLite client (verif-tagged constructor), each result and a full getter dump compared with an in-memory relational model; aborted transactions; argument-length table around the batching limit",
          "Drives the real SQLite client with PRNG sequences over all ~70 interface methods (incl. the ones no IMAP script reaches), compares every return value and, after every write transaction, a dump of the whole database through its getters with a small relational model; transactions aborted at PRNG-chosen points must leave no trace; every list-taking method is called with 0..2500 arguments. Held on the sequences explored.",
